@@ -171,10 +171,10 @@ namespace avel {
         }
 
         static vec4x64i compute_mp(vec4x64i l, vec4x64i d) {
+            d = avel::abs(d);
+
             vec4x64i n = vec4x64i{1} << (l - vec4x64i{1});
             n = clear(d == vec4x64i{1}, n);
-
-            d = avel::abs(d);
 
             auto quotient0 = div_64uhi_by_64u(extract<0>(n), extract<0>(d));
             auto quotient1 = div_64uhi_by_64u(extract<1>(n), extract<1>(d));
